@@ -4,10 +4,17 @@
 
    LAYER REACHED: L3 — the acceptance half is closed at full strength (C01_parse_conforming: every well-formed
    specification document is accepted and parses to exactly the denoted records). The layers below it (L0 value
-   literals, L1 entry value line, L2 record) are kept as theorems of their own. The rejection half (L4) is stated for
-   the fault classes proved so far; see the end of the file. *)
+   literals, L1 entry value line, L2 record) are kept as theorems of their own.
+   L4 (rejection) is PARTIAL: proved are the general theorem C01_reject_raw (a document one of whose record places holds
+   lines on which parse_record reports an error is rejected with >= 1 error and no records: errors are never dropped,
+   parsing never crashes) and the fault classes "malformed or non-Gregorian date", "reversed range", "second open
+   range" and "summary line starting with a blank character" as single-line injections into an arbitrary well-formed
+   document. NOT yet proved as classes: text after the headline, wrong / mixed indentation, malformed time / duration
+   (other than through the general theorem), shifted placeholder, blank line inside a record, stray text. The guard
+   [raw_ok (inject_raw ...)] of the class theorems says that the edited text still has the layout of a document (the
+   new line is not blank, has no linefeed, and its ending is unambiguous); it is a boolean, checkable by computation. *)
 From Klog Require Import Base.Prelude Base.Utf8 Model.Calendar Model.Values Model.Record Model.Lines Model.Parser
-  Spec.Spec Proofs.SpecValues Proofs.SpecEntry Proofs.SpecRecord Proofs.SpecDoc.
+  Spec.Spec Proofs.SpecValues Proofs.SpecEntry Proofs.SpecRecord Proofs.SpecDoc Proofs.SpecReject.
 Open Scope Z_scope.
 
 (* ---------- L0: value literals ---------- *)
@@ -63,6 +70,77 @@ Theorem C01_parse_conforming : forall d, wf d ->
 Proof. exact parse_conforming. Qed.
 Print Assumptions C01_parse_conforming.
 
+(* ---------- L4: rejection ---------- *)
+
+(* general form: any raw document (blank lines / groups of non-blank lines) one of whose groups makes parse_record
+   report an error is rejected: at least one error, no records, no crash *)
+Theorem C01_reject_raw_partial : forall rd, raw_ok rd = true -> Exists (fun tg => sig_fails (fst tg)) (rd_groups rd) ->
+  exists es, parse_text (render_raw rd) = Ok (Failed es) /\ es <> [].
+Proof. exact reject_raw. Qed.
+Print Assumptions C01_reject_raw_partial.
+
+(* malformed or non-Gregorian date: the date of record k's headline is replaced by a text without blanks that
+   NewDateFromString does not accept (see C01_date_not_gregorian for the non-Gregorian case) *)
+Theorem C01_parse_rejects_bad_date_partial : forall d k rg dtxt,
+  nth_error (do_records d) k = Some rg ->
+  let t := dtxt ++ skipn 10 (headline_text (fst rg)) in
+  raw_ok (inject_raw k 0 t d) = true ->
+  match dtxt with c :: _ => is_space_or_tab c = false | [] => False end ->
+  forallb (fun c => negb (is_space_or_tab c)) dtxt = true ->
+  (forall x, parse_date (utf8_encode dtxt) <> Ok x) ->
+  match skipn 10 (headline_text (fst rg)) with c :: _ => is_space_or_tab c = true | [] => True end ->
+  exists es, parse_text (inject k 0 t d) = Ok (Failed es) /\ es <> [].
+Proof. exact reject_bad_date. Qed.
+Print Assumptions C01_parse_rejects_bad_date_partial.
+
+(* a date literal of the right shape that is not a date of the Gregorian calendar is not accepted *)
+Theorem C01_date_not_gregorian : forall d, 0 <= sd_year d <= 9999 -> 0 <= sd_month d <= 99 -> 0 <= sd_day d <= 99 ->
+  wf_date d = false -> parse_date (render_date d) = Err EUnrepresentableDate.
+Proof. exact parse_render_date_invalid. Qed.
+Print Assumptions C01_date_not_gregorian.
+
+(* reversed range: the value line of an entry is replaced by a range whose end lies before its start *)
+Theorem C01_parse_rejects_reversed_range_partial : forall d k rg es1 e es2 a sp1 sp2 b tail,
+  wf d -> nth_error (do_records d) k = Some rg -> sr_entries (fst rg) = es1 ++ e :: es2 ->
+  wf_time a = true -> wf_time b = true -> timeline b < timeline a -> tail_ok tail -> text_ok tail = true ->
+  let t := indent_text (sr_indent (fst rg)) ++ render_value (SRange a sp1 sp2 b) ++ tail in
+  let j := entry_line_index (fst rg) es1 in
+  raw_ok (inject_raw k j t d) = true ->
+  exists es, parse_text (inject k j t d) = Ok (Failed es) /\ es <> [].
+Proof. exact reject_reversed_range. Qed.
+Print Assumptions C01_parse_rejects_reversed_range_partial.
+
+(* second open range: the value line of an entry that follows an open range is replaced by an open range *)
+Theorem C01_parse_rejects_second_open_partial : forall d k rg es1 e es2 a sp1 sp2 extra tail,
+  wf d -> nth_error (do_records d) k = Some rg -> sr_entries (fst rg) = es1 ++ e :: es2 ->
+  count_open es1 <> 0%nat ->
+  wf_time a = true -> tail_ok tail -> text_ok tail = true ->
+  let t := indent_text (sr_indent (fst rg)) ++ render_value (SOpen a sp1 sp2 extra) ++ tail in
+  let j := entry_line_index (fst rg) es1 in
+  raw_ok (inject_raw k j t d) = true ->
+  exists es, parse_text (inject k j t d) = Ok (Failed es) /\ es <> [].
+Proof. exact reject_second_open. Qed.
+Print Assumptions C01_parse_rejects_second_open_partial.
+
+(* summary line starting with a blank character: a record summary line is replaced by a text that begins with a blank
+   character (tab or Zs) and is not an indented line *)
+Theorem C01_parse_rejects_blank_summary_partial : forall d k rg s1 s s2 t,
+  wf d -> nth_error (do_records d) k = Some rg -> sr_summary (fst rg) = s1 ++ s :: s2 ->
+  match t with c :: _ => blank_char c = true | [] => False end ->
+  find_indentation (utf8_encode t) = None ->
+  raw_ok (inject_raw k (summary_line_index s1) t d) = true ->
+  exists es, parse_text (inject k (summary_line_index s1) t d) = Ok (Failed es) /\ es <> [].
+Proof. exact reject_blank_summary. Qed.
+Print Assumptions C01_parse_rejects_blank_summary_partial.
+
+(* known finding K3: a line holding only U+00A0 between two records is a blank line by the specification's glossary
+   (blank character = tab or Zs), but the text is rejected. Bytes: "2020-01-01\n" C2 A0 "\n2020-01-02\n" *)
+Theorem C01_zs_blank_line_refuted : exists s es,
+  s = b!"2020-01-01" ++ [10; 194; 160; 10]%N ++ b!"2020-01-02" ++ [10%N] /\
+  blank_char 160 = true /\ parse_text s = Ok (Failed es) /\ es <> [].
+Proof. exact zs_blank_line_witness. Qed.
+Print Assumptions C01_zs_blank_line_refuted.
+
 (* ---------- non-vacuity ---------- *)
 
 Example C01_time_nonvacuous :
@@ -114,3 +192,36 @@ Example C01_conforming_nonvacuous :
      ++ b!"    -01h05m" ++ [10%N] ++ b!"    9:00-  ??? " ++ [13; 10]%N ++ [10%N] ++ [9; 13; 10]%N
      ++ b!"0000/01/01" ++ [10%N] ++ [9%N] ++ b!"+0m" ++ [13; 10]%N ++ [10%N] ++ b!"9999-12-31".
 Proof. split; [vm_compute; reflexivity|]. split; vm_compute; reflexivity. Qed.
+
+(* one injected fault per proved class, on the three-record document above: the guards hold and the theorems apply *)
+Definition bad_date_text : text := b!"2023-02-29".
+Example C01_bad_date_nonvacuous :
+  raw_ok (inject_raw 0 0 (bad_date_text ++ skipn 10 (headline_text (fst (nth 0 (do_records example_doc) (fst (nth 0 (do_records example_doc) (Build_s_record (Build_s_date 0 0 0 true) None [] [] I4 [], [])), []))))) example_doc) = true
+  /\ (forall x, parse_date (utf8_encode bad_date_text) <> Ok x).
+Proof. split; [vm_compute; reflexivity|]. intros x H. vm_compute in H. discriminate. Qed.
+
+Example C01_reversed_range_nonvacuous :
+  let rg := nth 0 (do_records example_doc) (Build_s_record (Build_s_date 0 0 0 true) None [] [] I4 [], []) in
+  exists es1 e es2, sr_entries (fst rg) = es1 ++ e :: es2 /\ length es1 = 1%nat /\
+  let t := indent_text (sr_indent (fst rg)) ++ render_value (SRange (t_ 0 10 0 C24) 1 1 (t_ 0 9 0 C24)) ++ [] in
+  raw_ok (inject_raw 0 (entry_line_index (fst rg) es1) t example_doc) = true /\ timeline (t_ 0 9 0 C24) < timeline (t_ 0 10 0 C24).
+Proof. eexists [_], _, [_]. split; [reflexivity|]. split; [reflexivity|]. split; [vm_compute; reflexivity|reflexivity]. Qed.
+
+Example C01_second_open_nonvacuous :
+  let r := {| sr_date := {| sd_year := 2020; sd_month := 1; sd_day := 1; sd_dash := true |}; sr_should := None; sr_trail := [];
+              sr_summary := []; sr_indent := I2;
+              sr_entries := [ {| se_value := SOpen (t_ 0 8 0 C24) 1 1 0; se_first := None; se_more := [] |};
+                              {| se_value := SDur {| du_sign := SNone; du_h := Some b!"1"; du_m := None |}; se_first := None; se_more := [] |} ] |} in
+  let d := {| do_lead := []; do_records := [(r, [])]; do_crlf := fun _ => false; do_final_newline := true |} in
+  wf d /\ count_open [ {| se_value := SOpen (t_ 0 8 0 C24) 1 1 0; se_first := None; se_more := [] |} ] <> 0%nat
+  /\ raw_ok (inject_raw 0 (entry_line_index r [ {| se_value := SOpen (t_ 0 8 0 C24) 1 1 0; se_first := None; se_more := [] |} ])
+              (indent_text I2 ++ render_value (SOpen (t_ 0 9 0 C24) 0 0 1) ++ b!" again") d) = true
+  /\ inject 0 2 (indent_text I2 ++ render_value (SOpen (t_ 0 9 0 C24) 0 0 1) ++ b!" again") d
+     = b!"2020-01-01" ++ [10%N] ++ b!"  8:00 - ?" ++ [10%N] ++ b!"  9:00-?? again" ++ [10%N].
+Proof. split; [vm_compute; reflexivity|]. split; [vm_compute; discriminate|]. split; vm_compute; reflexivity. Qed.
+
+Example C01_blank_summary_nonvacuous :
+  let t := [12288%N] ++ b!"note" in      (* U+3000 IDEOGRAPHIC SPACE, then text *)
+  blank_char 12288 = true /\ find_indentation (utf8_encode t) = None
+  /\ raw_ok (inject_raw 0 (summary_line_index []) t example_doc) = true.
+Proof. repeat split; vm_compute; reflexivity. Qed.
